@@ -37,33 +37,7 @@ impl Check for C01 {
 
     fn strategy(&self, tier: Tier) -> BoxedStrategy<PairScenario> {
         let p = GenParams { max_ticks: tier.pick(400, 1000), max_sends: tier.pick(6, 10), max_frags: tier.pick(4, 12), tail: false, ..GenParams::default() };
-        // bulk shape: 4096-entry windows, high ceilings, streams of tiny packets on a few channels with rare
-        // Reliable ones (so parent leads grow into the hundreds), light faults, acks a few ticks behind
-        let bulk_send = (prop_oneof![6 => 0u8..4, 1 => 0u8..64], prop_oneof![40 => Just(1u8), 40 => Just(2u8), 10 => Just(0u8), 1 => Just(3u8)], 4u32..48).prop_map(|(ch, mode, size)| SendSpec { ch, mode, size });
-        let bulk_tick = (prop_oneof![Just(2_000u64), Just(5_000u64), Just(16_000u64)], proptest::collection::vec(bulk_send, 20..tier.pick(120, 300)), any::<bool>()).prop_map(|(dt_us, sends, rev)| {
-            let a = EpAct { step: true, sends, flushes: 1 };
-            let b = EpAct { step: true, sends: Vec::new(), flushes: 1 };
-            Tick { dt_us, acts: if rev { [b, a] } else { [a, b] } }
-        });
-        let q = GenParams { small_windows: false, tight_alloc: false, max_ticks: 2, max_latency_us: 60_000, ..GenParams::default() };
-        let bulk = (scenario_strategy(&q), proptest::collection::vec(bulk_tick, 20..tier.pick(80, 250)), any::<bool>()).prop_map(|(mut sc, ticks, thin)| {
-            sc.ticks = ticks;
-            for d in sc.dirs.iter_mut() {
-                d.bw_limit = d.bw_limit.max(5_000_000);
-            }
-            if thin {
-                // lighter faults: keep every third scripted fate
-                for l in sc.links.iter_mut() {
-                    for (k, f) in l.fates.iter_mut().enumerate() {
-                        if k % 3 != 0 {
-                            *f = Fate::Deliver(0);
-                        }
-                    }
-                }
-            }
-            sc.normalize();
-            sc
-        });
+        let bulk = bulk_scenario_strategy(tier.pick(120, 300), tier.pick(80, 250), true, false);
         prop_oneof![5 => scenario_strategy(&p), 1 => bulk].boxed()
     }
 
